@@ -38,7 +38,7 @@ CHECKS["C24"] = {
 }
 
 
-VM_FILES = ["vm/lib.go", "vm/corpus.go"]
+VM_FILES = ["vm/lib.go", "vm/corpus.go", "vm/corpus_wild_gen.go"]
 VM_GROUPS_Q = ["0[1-7]", "0[89]|1[0-4]", "1[5-9]|2[01]", "2[2-8]", "29|3[0-4]"]
 
 
@@ -289,5 +289,19 @@ CHECKS["C29"] = {
         unit("./internal", ["core/chart.go"], "^Harness_CHART_d1_", QT, flags={"labels": "^(C29:|no-panic)", "max-paths": 200000, "max-decisions": 2000}, reach=["end"]),
         unit(CTRL_PKG, CTRL_FILES, "^Harness_SCHEMA_", QT, flags={"labels": "^(C29:|no-panic)", "max-decisions": 4000}, reach=["end"]),
         unit("./internal", ["core/chart.go"], "^Harness_CHART_d2_", T, flags={"labels": "^(C29:|no-panic)", "max-paths": 2000000, "max-decisions": 3000}, reach=["end"], timeout_s=7000),
+    ],
+}
+
+
+CHECKS["C27"] = {
+    "level": "other",
+    "explanation": "Decided part of 'never crashes': (a) every program of the 34-shape corpus, compiled by the real compiler, is executed by the real Machine through vm.Run with ANY typed variable values (amounts and numbers of any sign, portions n/d with any n and any d != 0, so also above 100% and negative) and any balances: no reachable panic, a failed run returns no (partial) result, a successful one returns every posting, the program counter only moves forward (the loop terminates within the executor's step bound on every path). (b) machine.NewValueFromString — the door for variable JSON and account metadata — on a symbolic string for every variable type (account, asset, string, number, monetary, portion; regexes, SplitN, big.Rat.SetString and FindStringSubmatch are encoded over SMT strings): no panic, an error carries no value, an accepted portion lies in [0,1].",
+    "bounds": {"quick": "34 program shapes; all numeric values unbounded; value strings of <= 6 bytes (portion <= 5, monetary 4+1+3)", "thorough": "same"},
+    "outside": "'compiling any byte string': the ANTLR ATN simulator and the generated parser cannot be executed on symbolic bytes within reach — compilation of arbitrary text is NOT decided; programs outside the corpus; SetVarsFromJSON's JSON layer",
+    "assumptions": COMMON_ASSUME + ["FindStringSubmatch on a symbolic subject returns some decomposition of the subject along the pattern (Go's leftmost-first choice when it is unique, as for the repo's patterns)"],
+    "units": [
+        unit("./internal/machine/vm", VM_FILES, "^Harness_VMW_(0|1[0-6])", QT, flags={"labels": "^(C27:|no-panic)"}, reach=["end"]),
+        unit("./internal/machine/vm", VM_FILES, "^Harness_VMW_(1[7-9]|2|3)", QT, flags={"labels": "^(C27:|no-panic)"}, reach=["end"]),
+        unit("./internal/machine", ["machine/c27.go"], "^Harness_C27_", QT, flags={"labels": "^(C27:|no-panic)"}, reach=["end"]),
     ],
 }
